@@ -68,6 +68,13 @@ def judge(case, real, extra, cache):
             out.append(("close() of the iterable not called exactly once", "1", real["closes"], None))
     elif real["closes"] != "0":
         out.append(("close() called without an iterable", "0", real["closes"], None))
+    # a file wrapper is never handed over after a 1xx/204/304 status (fix d117733): the task iterates it
+    # (write() drops every block) and closes it itself -- covered by the close-once test above once
+    # hand-over is excluded
+    starts = [a for a in T.actions_of(case) if a[0] == "S"]
+    if (real["hand"] == "1" and len(starts) == 1 and isinstance(starts[0][1], str)
+            and (starts[0][1].startswith("1") or starts[0][1].startswith("204") or starts[0][1].startswith("304"))):
+        out.append(("file wrapper handed over to the channel after a 1xx/204/304 status", "closed by the task", "handed over", None))
     # traceback exposure
     if T.TB_MARK.encode() in wire and not case["cfg"]["expose"]:
         out.append(("traceback text on the wire without expose_tracebacks", "absent", "present", None))
